@@ -79,8 +79,9 @@ ASSUMPTIONS = [
     'asyncio.StreamReader.readexactly consumes nothing until n bytes are buffered; tasks start in creation order '
     '(modelled, exercised unmodified by the correspondence run)',
     'user callbacks (Interest handlers, validators) do not raise: C06_receive_total takes the three handlers as '
-    'total functions; _on_nack can raise InvalidStateError for a cancelled waiter that is still in the table '
-    '(dagger 13, owned by C03) and v1 _on_nack raises KeyError with nothing pending until C03\'s c7d62ad is merged',
+    'total functions (that _on_data / _on_nack do not raise in any reachable table state -- cancelled waiters still '
+    'listed, nothing pending under the name -- was false on the library as found, is fixed in /repo (findings of C03 / '
+    'C06), and is checked here by the reachable-table-state family)',
     'documented decoding errors = DecodeError, IndexError, ValueError (incl. UnicodeDecodeError), struct.error (C07)',
 ]
 
